@@ -187,6 +187,7 @@ type run struct {
 	storeSeen  int
 	evPending  bool
 	evVal      int
+	contentTag string
 	unregDone  map[int]bool
 	asyncs     map[int]*asyncRes // pending unregisters by handle
 }
